@@ -34,6 +34,27 @@ Monitors (all on executions of the real Membrane / InnateImmunity):
     it holds is wrapped generically, whatever it is called): admissions <= rate_limit, no deadlock, one audit entry per call,
     for every explored schedule.
 
+Round 4 (tools/STRENGTHEN4.md), all judged by the same oracles:
+  * console output goes to a strict UTF-8 text stream (what a terminal / pipe / log file is), so a message built from the input that
+    cannot be encoded comes out of filter() / check() as the exception it is; hostile inputs and signature texts with lone surrogates,
+    NUL, newlines, regex and format metacharacters;
+  * public settings assigned after construction (threshold, rate_limit, enable_adaptive, on_threat, silent, the `signatures` list rebound;
+    severity_threshold, validators rebound / removed / replaced, patterns rebound, on_inflammation, inflammation_decay, silent);
+  * value types: bool / Fraction / Decimal limits and thresholds, falsy non-bool flags, falsy callables as callbacks, str subclasses as
+    inputs and pattern texts, one-shot iterables where lists are usual, envelopes carrying attributes named like result fields,
+    every method also called with keyword arguments;
+  * one case in seven in a process time zone far from UTC (restored afterwards), clock bases right before a DST step of the wall clock;
+  * signatures / patterns / envelopes sent through copy, deepcopy, pickle, dataclasses.replace before use; the innate gate itself
+    duplicated by deepcopy / pickle / copy mid-session (the duplicate owes the same answers); shallow copies of the membrane;
+  * short-lived inputs, envelopes and signature objects in a loop with garbage collection in between (address reuse);
+  * user callbacks / validators raising any of fifteen exception types (the very instance raised is what may propagate), a validator
+    and the callback failing in the same check();
+  * which public methods / keywords the sessions reached is counted (`api:...` counters, informational);
+  * the refusal obligations once per run in a child interpreter started with -O (rv/c10_child.py), and in this one as a control;
+  * locks: in sequential sessions every lock-like attribute of a rate-limited gate reports a second acquisition by the thread that still
+    holds it (a call returned with the lock held) instead of hanging; under the scheduler a lock that the gate replaces by a fresh one
+    is wrapped again, so the schedule goes on and its outcome is judged.
+
 Nothing here reads or writes a private attribute / method of the gates: rules go in through the constructors, add_signature /
 learn_threat / forget_threat / import_antibodies / set_threshold / add_pattern and the public `signatures` / `patterns` lists,
 verdicts come out through the returned results and get_audit_log(); time is the module-level `time` name (rv.vclock); locks and
@@ -41,10 +62,18 @@ helper objects are found structurally. Required minimums are keyed to calls made
 the number of instrumented code objects are informational: they depend on how the gate is built inside).
 """
 import contextlib
+import copy
+import dataclasses
+import gc
 import io
 import json
+import os
+import pickle
 import sys
+import time as _time
 from collections import Counter, deque
+from decimal import Decimal
+from fractions import Fraction
 
 from rv import c10_model as M
 from rv import core, sched
@@ -61,7 +90,10 @@ RULE = ("cases = sweep of %d hostile input kinds x 10 gate configurations, then 
         "histories, rule-change sessions of 1-4 rounds on one gate (input passes -> count-preserving or plain rule change that makes an active "
         "signature match it -> identical input again), sessions over 2-3 membranes + 1-2 innate gates used alternately, a handful of long sessions "
         "(> 20 000 operations on one gate: replay memory / audit trail / rate window / rule memory / innate), one case in nine with console output on, "
-        "and 3-thread rate-limiter workloads under pb(1)+random schedules; options include the degenerate values (rate_limit 0, thresholds and "
+        "and 3-thread rate-limiter workloads under pb(1)+random schedules; round 4: console output into a strict UTF-8 stream, settings assigned "
+        "mid-session, bool / Fraction / Decimal / falsy / one-shot / str-subclass values, one case in seven in a far time zone across DST steps, "
+        "objects through copy / deepcopy / pickle, short-lived objects with gc in between, typed user exceptions, keyword calls, a -O child probe; "
+        "options include the degenerate values (rate_limit 0, thresholds and "
         "severities off the scale or fractional, validator bounds 0 / 1 / min > max, empty patterns), user callbacks and validators that raise; non-trivial = the input matches >= 1 active signature or "
         "trips a validator, a refusal path (rate / replay) is taken, or a schedule switches threads inside filter(); "
         "distinct = (gate, matched set, threshold, path taken)")
@@ -92,6 +124,17 @@ ASSUMPTIONS = [
     "the long rate stream is judged with tolerant windows: more than rate_limit admissions inside 59 s is a violation, a refusal without a signature "
     "needs rate_limit requests through the gate within the last 61 s",
     "clear_audit_log() is the user's reset of the trail: decisions made afterwards are appended to the emptied trail",
+    "round 4: a public setting assigned after construction (threshold, rate_limit, enable_adaptive, severity_threshold, the validators / "
+    "patterns / signatures lists) binds the decisions made after the assignment; whether a falsy callable given as on_threat / "
+    "on_inflammation is called is not judged (the statement puts no duty on callbacks)",
+    "round 4: console output is judged on a strict UTF-8 stream only (an ASCII console cannot show the gates' own messages); "
+    "learn_threat() echoing an unencodable pattern text is a registration call, not a gate decision: such texts are registered through "
+    "non-printing routes when console output is on",
+    "round 4: one-shot iterables are handed to `signatures=`, `patterns=` and import_antibodies() (consumed once at the call); "
+    "`validators=` is annotated as a list and kept by reference by the unchanged tree, so it is only ever given a list",
+    "round 4: Decimal settings are never mixed with Fraction / float severities in one gate (Python refuses that arithmetic); "
+    "a deep copy / pickle of a gate that its class does not support (the membrane holds a lock) is recorded, not judged; a shallow copy "
+    "of a membrane is a second handle on the same rule set and is given fresh inputs only",
 ]
 
 GATES = ["membrane-default", "membrane-custom", "membrane-verbose", "innate-default", "innate-json", "innate-json-big", "innate-all",
@@ -103,7 +146,7 @@ SILENT = [True]      # one case in nine runs the gates with silent=False (stdout
 
 
 def plan(tier):
-    extra = 24000 if tier == "quick" else 600000
+    extra = 22000 if tier == "quick" else 600000
     return {"cases": len(SWEEP) + extra, "shards": 8 if tier == "quick" else 14,
             "min_nontrivial": 300, "timeout": 600 if tier == "quick" else 2400,
             "require": {"membrane_filter_calls": 5000, "membrane_scan_decisions": 3000, "membrane_allowed": 500,
@@ -129,7 +172,12 @@ def plan(tier):
                         "membrane_rate_limit_zero_decisions": 80, "membrane_on_threat_calls": 300,
                         "membrane_on_threat_raised_through_filter": 80, "membrane_report_reads": 1500, "innate_report_reads": 500,
                         "innate_user_exception_through_check": 40, "innate_validators_added_mid_session": 150,
-                        "innate_odd_threshold_checks": 300, "innate_user_validator_rejections": 40}}
+                        "innate_odd_threshold_checks": 300, "innate_user_validator_rejections": 40,
+                        # round 4 (minimums filled in from measured counts, >= 5x below typical)
+                        "cases_in_a_far_time_zone": 400, "short_lived_inputs_judged": 3000, "short_lived_signatures_judged": 500,
+                        "refusal_probe_obligations_checked:python-O": 6, "refusal_probe_obligations_checked:ordinary": 6,
+                        "innate_settings_assigned_mid_session": 300, "innate_gates_duplicated": 30,
+                        "one_shot_iterables_handed_over": 1500, "signature_objects_duplicated_before_registration": 2000}}
 
 
 # ------------------------------------------------------------------ keys / construction
@@ -150,6 +198,8 @@ def gen_sigspec(rng, maxlevel, minlevel=1):
     r = rng.random()
     if r < 0.015:                          # degenerate patterns: empty / one character / match-everything
         pat, rx = rng.choice(DEGENERATE_SPECS)
+    elif r < 0.05:                         # signature texts full of regex / format metacharacters, NUL, newlines, a lone surrogate
+        pat, rx = rng.choice(M.HOSTILE_NAMES), False
     elif r < 0.45:
         pat, rx = rng.choice(M.CUSTOM_SUB), False
     elif r < 0.85:
@@ -166,6 +216,175 @@ def describe(rng):
 
 class CallbackBoom(Exception):
     """raised only by the user callbacks / user validators this workload supplies, never by the gates themselves"""
+
+
+# every exception TYPE user code may raise where a handler inside the gate could discriminate; the instance raised is remembered,
+# and only that very object coming back out of filter() / check() counts as "the user's exception propagated"
+USER_EXC_TYPES = [CallbackBoom, CallbackBoom, CallbackBoom, TypeError, KeyError, TimeoutError, AssertionError, ValueError, OSError,
+                  StopIteration, RecursionError, AttributeError, LookupError, ZeroDivisionError, RuntimeError, IndexError]
+RAISED = deque(maxlen=16)
+
+
+def user_raise(rng, what):
+    e = rng.choice(USER_EXC_TYPES)(what)
+    RAISED.append(e)
+    raise e
+
+
+def is_user_exception(e):
+    return isinstance(e, CallbackBoom) or any(e is x for x in RAISED)
+
+
+class FalsyCallable:
+    """a callback object that is callable but falsy (it has a length of 0): `if callback:` and `if callback is not None:` differ on it.
+    The statement puts no duty on callbacks, so whether it is called is recorded, not judged."""
+
+    def __init__(self, sink):
+        self.sink = sink
+
+    def __call__(self, *a, **kw):
+        self.sink.append(a[0] if a else None)
+
+    def __len__(self):
+        return 0
+
+
+class TaggedStr(str):
+    """a str subclass (what an ORM / markup / tainting library hands out) carrying attributes named like the library's own labels"""
+    allowed = True
+    threat_level = "SAFE"
+    trusted = True
+
+
+class _CountingRaw(io.RawIOBase):
+    def __init__(self):
+        self.n = 0
+
+    def writable(self):
+        return True
+
+    def write(self, b):
+        self.n += len(b)
+        return len(b)
+
+
+@contextlib.contextmanager
+def strict_console():
+    """what a terminal, a pipe or `python app.py > log` give a program as sys.stdout: an encoded text stream with errors='strict'
+    (a lone surrogate raises UnicodeEncodeError there; it does not in io.StringIO). Yields the byte counter."""
+    raw = _CountingRaw()
+    out = io.TextIOWrapper(io.BufferedWriter(raw), encoding="utf-8", errors="strict", newline="\n")
+    with contextlib.redirect_stdout(out):
+        try:
+            yield raw
+        finally:
+            try:
+                out.flush()
+            except Exception:  # noqa
+                pass
+
+
+TZS = ["EST5EDT,M3.2.0,M11.1.0", "EST5EDT,M3.2.0,M11.1.0", "EST5EDT,M3.2.0,M11.1.0", "<+14>-14", "<-12>12", "NZST-12NZDT,M9.5.0,M4.1.0/3", "<+0545>-5:45"]
+DST_FALLBACK_UTC = 1_699_164_000.0        # 2023-11-05 06:00:00 UTC: 02:00 EDT becomes 01:00 EST (local wall clock steps back one hour)
+DST_FORWARD_UTC = 1_678_604_400.0         # 2023-03-12 07:00:00 UTC: 02:00 EST becomes 03:00 EDT (local wall clock skips one hour)
+
+
+@contextlib.contextmanager
+def far_timezone(tz):
+    """the process time zone set far from UTC for the duration of one case (restored afterwards: other cases share the process)"""
+    old = os.environ.get("TZ")
+    os.environ["TZ"] = tz
+    _time.tzset()
+    try:
+        yield
+    finally:
+        if old is None:
+            os.environ.pop("TZ", None)
+        else:
+            os.environ["TZ"] = old
+        _time.tzset()
+
+
+TZ_STATE = [None]                         # the time zone of the current case (None = the process default), see run_case
+
+
+def pick_clock_base(rng, bases=None):
+    if TZ_STATE[0] is not None and TZ_STATE[0].startswith("EST5EDT") and rng.random() < 0.7:
+        return rng.choice([DST_FALLBACK_UTC, DST_FORWARD_UTC]) - rng.choice([0.5, 10.0, 30.0, 45.0, 100.0])
+    return rng.choice(bases or CLOCK_BASES)
+
+
+# ------------------------------------------------------------------ which public methods / keywords the sessions reach (informational)
+API_CALLS = Counter()
+_REC = {}
+
+
+def recording(cls):
+    """a subclass of `cls` whose public methods (enumerated with dir() at run time) count their calls and the keywords they
+    were called with; behaviour is untouched"""
+    import functools
+    import inspect
+    sub = _REC.get(cls)
+    if sub is not None:
+        return sub
+    ns = {}
+    label = [k.__name__ for k in cls.__mro__ if (getattr(k, "__module__", "") or "").startswith("operon_ai")][0]
+    for name in dir(cls):
+        if name.startswith("_"):
+            continue
+        fn = inspect.getattr_static(cls, name)
+        if not inspect.isfunction(fn):
+            continue
+        API_CALLS["api:%s.%s" % (label, name)] += 0
+
+        def mk(fn, key):
+            @functools.wraps(fn)
+            def wrapper(self, *a, **kw):
+                API_CALLS[key] += 1
+                for k in kw:
+                    API_CALLS["%s(%s=)" % (key, k)] += 1
+                return fn(self, *a, **kw)
+            return wrapper
+        ns[name] = mk(fn, "api:%s.%s" % (label, name))
+    sub = _REC[cls] = type("Recording" + cls.__name__, (cls,), ns)
+    sub.__module__ = __name__
+    globals()[sub.__name__] = sub          # reachable by name: instances can go through pickle
+    return sub
+
+
+def flush_api_calls(ctx):
+    for k, v in API_CALLS.items():
+        ctx.count(k, v)
+    for k in API_CALLS:
+        API_CALLS[k] = 0
+
+
+def xform_sig(rng, sig):
+    """the signature / pattern object as it arrives after a trip through the object protocols (same rule, another object)"""
+    k = rng.random()
+    if k < 0.80:
+        return sig
+    API_CALLS["signature_objects_duplicated_before_registration"] += 1
+    if k < 0.85:
+        return copy.copy(sig)
+    if k < 0.90:
+        return copy.deepcopy(sig)
+    if k < 0.95:
+        return pickle.loads(pickle.dumps(sig, rng.choice([2, pickle.HIGHEST_PROTOCOL])))
+    return dataclasses.replace(sig)
+
+
+def one_shot(rng, items):
+    """the same items as a list or as a one-shot iterable"""
+    k = rng.random()
+    if k < 0.6:
+        return items
+    API_CALLS["one_shot_iterables_handed_over"] += 1
+    if k < 0.75:
+        return iter(items)
+    if k < 0.9:
+        return (x for x in items)
+    return map(lambda x: x, items)
 
 
 class MEnv:
@@ -186,12 +405,15 @@ def make_on_threat(holder, mode):
     if mode is None:
         return None
 
-    def on_threat(result):
+    if mode == "falsy":
+        return FalsyCallable(holder[0].cb_calls if holder[0] is not None else [])
+
+    def on_threat(result, *more):
         env = holder[0]
         env.cb_calls.append(result)
         k = len(env.cb_calls)
         if mode == "raise" or (mode == "raise-some" and k % 2 == 1):
-            raise CallbackBoom("on_threat #%d" % k)
+            user_raise(env.rng, "on_threat #%d" % k)
         if mode == "reenter":
             env.m.get_statistics()
             env.m.get_audit_log().clear()
@@ -199,7 +421,10 @@ def make_on_threat(holder, mode):
     return on_threat
 
 
-RATE_DEGENERATE = [0, 0, 0, 1, 2.0, 10 ** 9, 2 ** 53 + 1]
+CB_MODES = ["record", "record", "raise", "raise", "raise-some", "reenter", "reenter", "falsy"]
+
+
+RATE_DEGENERATE = [0, 0, 0, 1, 2.0, 10 ** 9, 2 ** 53 + 1, True, False, Fraction(2), Decimal(3)]
 
 
 def build_membrane(rng, rate_limit=None, desc=None):
@@ -216,23 +441,39 @@ def build_membrane(rng, rate_limit=None, desc=None):
     removed = [sig_key(s) for s in builtins if s not in keep]
     threshold = rng.choice([0, 1, 1, 2, 2, 2, 3, 3])
     adaptive = rng.random() < 0.7
-    cls = Membrane if keep is builtins else type("SubsetMembrane", (Membrane,), {"INNATE_SIGNATURES": keep})
+    base = recording(Membrane)
+    cls = base if keep is builtins else type("SubsetMembrane", (base,), {"INNATE_SIGNATURES": keep})
     ncustom = rng.choice([0, 0, 1, 1, 2, 3, 4, 6])
     specs = [gen_sigspec(rng, 3, 0 if rng.random() < 0.05 else 1) for _ in range(ncustom)]
     routes = [rng.choice(["ctor", "add", "learn", "import"]) for _ in specs]
-    ctor = [ThreatSignature(p, ThreatLevel(l), describe(rng), rx) for (p, rx, l), rt in zip(specs, routes) if rt == "ctor"]
-    cb_mode = rng.choice([None] * 12 + ["record", "record", "raise", "raise", "raise-some", "reenter", "reenter"])
+    ctor = [xform_sig(rng, ThreatSignature(p, ThreatLevel(l), describe(rng), rx)) for (p, rx, l), rt in zip(specs, routes) if rt == "ctor"]
+    cb_mode = rng.choice([None] * 12 + CB_MODES)
+    late_cb = cb_mode is not None and rng.random() < 0.25      # constructed without the callback, assigned through the public attribute
     holder = [None]
+    cb_sink = []
     handed = list(ctor) if (ctor or rng.random() < 0.5) else None          # [] and None both mean "no extra signatures"
-    m = cls(signatures=handed, threshold=ThreatLevel(threshold), enable_adaptive=adaptive, rate_limit=rate_limit,
-            on_threat=make_on_threat(holder, cb_mode), silent=SILENT[0])
+    given = one_shot(rng, handed) if handed else handed
+    kw = {"signatures": given, "threshold": ThreatLevel(threshold), "enable_adaptive": adaptive, "rate_limit": rate_limit,
+          "on_threat": None if late_cb else (FalsyCallable(cb_sink) if cb_mode == "falsy" else make_on_threat(holder, cb_mode)),
+          "silent": SILENT[0]}
+    for k, dflt in (("signatures", None), ("enable_adaptive", True), ("rate_limit", None), ("on_threat", None)):
+        if kw[k] is dflt and rng.random() < 0.5:
+            del kw[k]                      # an option left out altogether and the same option given its default value
+    for k in kw:
+        API_CALLS["api:Membrane.__init__(%s=)" % k] += 1
+    m = cls(**kw)
     if handed:
         handed.clear()                     # the caller's list is the caller's: emptying it afterwards is no rule change
     mm = M.MembraneModel([sig_key(s) for s in keep] + [sig_key(s) for s in ctor], threshold, adaptive, rate_limit)
     env = new_menv(m, mm, rng, {"gate": "membrane", "builtins_kept": "all" if keep is builtins else [s.pattern for s in keep],
                                 "threshold": threshold, "adaptive": adaptive, "rate_limit": rate_limit, "on_threat": cb_mode,
-                                "ctor_signatures": [sig_key(s) for s in ctor]}, removed)
+                                "on_threat_assigned_later": late_cb, "ctor_signatures": [sig_key(s) for s in ctor]}, removed)
+    env.cb_calls = cb_sink
     holder[0] = env
+    if late_cb:
+        m.on_threat = FalsyCallable(cb_sink) if cb_mode == "falsy" else make_on_threat(holder, cb_mode)
+    if rate_limit is not None:
+        guard_against_leaked_locks(env)
     for spec, rt in zip(specs, routes):
         if rt != "ctor":
             apply_rule_op(env, rt, spec, rng)
@@ -243,18 +484,26 @@ def apply_rule_op(env, kind, spec, rng=None):
     from operon_ai.organelles.membrane import Membrane, ThreatLevel, ThreatSignature
     m, mm = env.m, env.mm
     rng = env.rng
+    if kind == "learn" and not m.silent and M.has_surrogate(spec[0]):
+        kind = "import"                    # learn_threat() shows the pattern on the console: not a gate decision, not exercised with unencodable text
     if kind == "add":
-        sig = ThreatSignature(spec[0], ThreatLevel(spec[2]), describe(rng), spec[1])
-        m.add_signature(sig)
+        sig = xform_sig(rng, ThreatSignature(spec[0], ThreatLevel(spec[2]), describe(rng), spec[1]))
+        if rng.random() < 0.8:
+            m.add_signature(sig)
+        else:
+            m.add_signature(signature=sig)
         mm.add(spec)
         if rng.random() < 0.08:            # the very same object registered a second time: two entries, both match
             m.add_signature(sig)
             mm.add(spec)
     elif kind == "learn":
-        if rng.random() < 0.8:
+        k = rng.random()
+        if k < 0.7:
             m.learn_threat(spec[0], ThreatLevel(spec[2]), describe(rng), spec[1])
-        else:
+        elif k < 0.85:
             m.learn_threat(pattern=spec[0], level=ThreatLevel(spec[2]), is_regex=spec[1])
+        else:
+            m.learn_threat(TaggedStr(spec[0]), description=describe(rng), is_regex=spec[1], level=ThreatLevel(spec[2]))
         mm.learn(spec)
         if not mm.adaptive:
             env.inactive.append(spec)
@@ -272,18 +521,33 @@ def apply_rule_op(env, kind, spec, rng=None):
             relay = Membrane(silent=True, enable_adaptive=rng.random() < 0.5)
             relay.import_antibodies(donor.export_antibodies())
             donor = relay
-        abs_ = donor.export_antibodies()
+        abs_ = [xform_sig(rng, a) for a in donor.export_antibodies()]
         keys = [sig_key(a) for a in abs_]
-        m.import_antibodies(abs_)
+        if rng.random() < 0.8:
+            m.import_antibodies(one_shot(rng, abs_))
+        else:
+            m.import_antibodies(antibodies=one_shot(rng, abs_))
         mm.imp(keys)
         if rng.random() < 0.5:
             abs_.clear()
             for k in keys:
                 donor.forget_threat(k[0])
     elif kind == "rate-limit":             # the public `rate_limit` attribute (what the constructor option is stored in)
+        if spec is not None:
+            guard_against_leaked_locks(env)
         m.rate_limit = spec
         mm.rate_limit = spec
         mm.allowed_times = []              # reading: a new limit bounds the admissions made under it
+    elif kind == "threshold-attr":         # the public `threshold` attribute assigned directly (what set_threshold() stores)
+        m.threshold = ThreatLevel(spec)
+        mm.threshold = spec
+    elif kind == "on-threat":              # the public `on_threat` attribute: a callback assigned, exchanged or withdrawn mid-session
+        m.on_threat = make_on_threat([env], spec)
+        env.desc["on_threat"] = spec
+    elif kind == "silent":                 # console output switched on / off mid-session (only inside cases that own the console)
+        m.silent = spec
+    elif kind == "signatures-reassign":    # the public `signatures` attribute rebound to another list holding the same rules
+        m.signatures = list(m.signatures) if spec == "copy" else list(reversed(m.signatures))
     elif kind == "adaptive":
         m.enable_adaptive = spec
         mm.adaptive = spec
@@ -292,19 +556,74 @@ def apply_rule_op(env, kind, spec, rng=None):
     elif kind == "self-import":            # the gate's own antibodies handed back to it: no rule changes
         m.import_antibodies(m.export_antibodies())
     elif kind == "forget":
-        m.forget_threat(spec[0])
+        if rng.random() < 0.8:
+            m.forget_threat(spec[0])
+        else:
+            m.forget_threat(pattern=spec[0])
         mm.forget(spec[0])
     elif kind == "threshold":
-        m.set_threshold(ThreatLevel(spec))
+        if rng.random() < 0.8:
+            m.set_threshold(ThreatLevel(spec))
+        else:
+            m.set_threshold(threshold=ThreatLevel(spec))
         mm.threshold = spec
     elif kind == "replace-signature":      # spec = (old key, new spec): in-place edit of the public `signatures` list, rule count unchanged
         old, new = spec
-        m.signatures[last_index(m.signatures, old, sig_key)] = ThreatSignature(new[0], ThreatLevel(new[2]), "replaced", new[1])
+        m.signatures[last_index(m.signatures, old, sig_key)] = xform_sig(rng, ThreatSignature(new[0], ThreatLevel(new[2]), "replaced", new[1]))
         mm.replace(old, new)
     elif kind == "remove-signature":
         del m.signatures[last_index(m.signatures, spec, sig_key)]
         mm.remove(spec)
     env.ops.append([kind, spec])
+
+
+class LeakWatch:
+    """stands in for a lock of the gate in sequential sessions: a second acquisition by the thread that still holds the lock (a
+    call that returned or raised with the lock held) is reported at once instead of hanging the session"""
+
+    def __init__(self, inner, name="lock"):
+        self.inner, self.name, self.owner, self.depth = inner, name, None, 0
+
+    def acquire(self, blocking=True, timeout=-1):
+        import threading
+        from rv.locks import WouldHang
+        me = threading.get_ident()
+        if self.inner.acquire(False):
+            self.owner, self.depth = me, self.depth + 1
+            return True
+        if self.owner == me:
+            raise WouldHang(self.name, None, None)
+        ok = self.inner.acquire(blocking, timeout)
+        if ok:
+            self.owner, self.depth = me, self.depth + 1
+        return ok
+
+    def release(self):
+        self.depth -= 1
+        if self.depth <= 0:
+            self.owner, self.depth = None, 0
+        self.inner.release()
+
+    def locked(self):
+        return self.depth > 0
+
+    def __enter__(self):
+        self.acquire()
+        return self
+
+    def __exit__(self, *a):
+        self.release()
+        return False
+
+
+def guard_against_leaked_locks(env):
+    """every lock-like attribute of a rate-limited gate (and of its helper objects), whatever it is called"""
+    if getattr(env, "guarded", False):
+        return
+    env.guarded = True
+    from rv.locks import wrap_all_locks
+    for o in _parts(env.m):
+        API_CALLS["membrane_locks_watched_for_leaks"] += len(wrap_all_locks(o, LeakWatch))
 
 
 def last_index(objs, key, keyfn):
@@ -361,12 +680,19 @@ def make_signal(env, content):
     old = env.signals.get(content)
     if old is not None and rng.random() < 0.5:
         return old
-    if rng.random() < 0.7:
-        s = Signal(content=content)
+    k = rng.random()
+    text = TaggedStr(content) if rng.random() < 0.05 else content           # a str subclass is an input string too
+    if k < 0.7:
+        s = Signal(content=text)
     else:
-        s = Signal(content=content, source=rng.choice(SOURCES), signal_type=rng.choice(list(SignalType)),
+        s = Signal(content=text, source=rng.choice(SOURCES), signal_type=rng.choice(list(SignalType)),
                    strength=rng.choice(list(SignalStrength)), metadata=rng.choice(METAS)(),
                    trace_id=rng.choice([None, "", "trace-1"]))
+        if k > 0.94:                       # the envelope went through the Signal API / an object protocol on its way here
+            s = rng.choice([lambda: s.with_metadata(hop=1), s.amplify, lambda: copy.copy(s), lambda: copy.deepcopy(s),
+                            lambda: pickle.loads(pickle.dumps(s))])()
+        elif k > 0.9:                      # ... or carries attributes named like the library's own result labels
+            s.allowed, s.threat_level, s.matched_signatures, s.audit_hash, s.sanitized_content = True, "SAFE", [], "0" * 16, "ok"
     if len(env.signals) < 64:
         env.signals[content] = s
     return s
@@ -404,24 +730,29 @@ def step_filter(ctx, env, content, now=0.0, expect_block=None, tag="filter"):
         env.ops.append(["report-api-read"])
     before = len(m.get_audit_log())
     ncb = len(env.cb_calls)
+    sig = make_signal(env, content)
     try:
-        r = m.filter(make_signal(env, content))
+        r = m.filter(sig) if env.rng.random() < 0.9 else m.filter(signal=sig)
     except (KeyboardInterrupt, SystemExit):
         raise
-    except CallbackBoom as e:
-        # the user's own on_threat exception coming back out of filter(): it may propagate. The decision it interrupted is the one
-        # that was handed to the callback; everything the gate owes for that decision (audit entry, replay memory, window slot)
-        # is judged on it exactly as if it had been returned
+    except BaseException as e:  # noqa: totality monitor
+        if not is_user_exception(e):
+            ctx.count("membrane_filter_raised")
+            if type(e).__name__ == "WouldHang":
+                ctx.violation("membrane-lock-left-held", "Membrane.filter would hang: the calling thread still holds %s from an earlier call" % e.lock_name, wit)
+            else:
+                ctx.violation("filter-raises:%s" % type(e).__name__, "Membrane.filter raised %s: %s" % (type(e).__name__, str(e)[:160]), wit)
+            return None
+        # the user's own on_threat exception (whatever its type) coming back out of filter(): it may propagate. The decision it
+        # interrupted is the one that was handed to the callback; everything the gate owes for that decision (audit entry, replay
+        # memory, window slot) is judged on it exactly as if it had been returned
         ctx.count("membrane_on_threat_raised_through_filter")
+        ctx.count("user_exception_types_through_filter:%s" % type(e).__name__)
         if len(env.cb_calls) == ncb:
             ctx.violation("filter-raises:%s" % type(e).__name__, "Membrane.filter raised the callback's exception without calling it", wit)
             return None
         r = env.cb_calls[-1]
-        wit["on_threat_raised"] = True
-    except BaseException as e:  # noqa: totality monitor
-        ctx.count("membrane_filter_raised")
-        ctx.violation("filter-raises:%s" % type(e).__name__, "Membrane.filter raised %s: %s" % (type(e).__name__, str(e)[:160]), wit)
-        return None
+        wit["on_threat_raised"] = type(e).__name__
     ctx.count("membrane_filter_calls")
     if len(env.cb_calls) > ncb:
         ctx.count("membrane_on_threat_calls")
@@ -535,6 +866,8 @@ def case_minput(ctx, n, rng):
         if rng.random() < 0.25:
             spec = gen_sigspec(rng, 3)
             apply_rule_op(env, rng.choice(["add", "learn", "import"]), spec, rng)
+        if rng.random() < 0.04:
+            membrane_duplicate(ctx, env, rng)
     if n % 500 == 3:
         ctx.sample({"kind": "membrane-input", "config": env.desc})
 
@@ -597,7 +930,7 @@ def mhist_step(ctx, env, rng, clock, pool, future, all_models=None):
     elif r < 0.75:
         apply_rule_op(env, "add", rng.choice(future) if rng.random() < 0.5 else gen_sigspec(rng, 3))
     elif r < 0.82:
-        apply_rule_op(env, "threshold", rng.choice([0, 1, 2, 3, 3, 3]))
+        apply_rule_op(env, "threshold" if rng.random() < 0.6 else "threshold-attr", rng.choice([0, 1, 2, 3, 3, 3]))
     elif r < 0.85 and mm.learned:            # rotate: one learned pattern out, another in, nothing filtered in between
         apply_rule_op(env, "forget", rng.choice(sorted(mm.learned.values())))
         apply_rule_op(env, learn_route(rng, mm), rng.choice(future))
@@ -607,14 +940,22 @@ def mhist_step(ctx, env, rng, clock, pool, future, all_models=None):
         apply_rule_op(env, learn_route(rng, mm), (k[0], (not k[1]) if flip else k[1], rng.randint(0, 3)))
     elif r < 0.92:                           # configuration / maintenance between decisions
         k = rng.random()
-        if k < 0.4:
+        if k < 0.3:
             apply_rule_op(env, "rate-limit", pick_rate(rng))
-        elif k < 0.65:
-            apply_rule_op(env, "adaptive", rng.random() < 0.5)
-        elif k < 0.8:
+        elif k < 0.5:
+            apply_rule_op(env, "adaptive", rng.choice([True, False, 0, 1, "", None, "yes"]))     # a flag is whatever is truthy
+        elif k < 0.6:
             apply_rule_op(env, "self-import", None)
-        else:
+        elif k < 0.7:
             apply_rule_op(env, "clear-audit", None)
+        elif k < 0.85:
+            apply_rule_op(env, "on-threat", rng.choice([None, None] + CB_MODES))
+        elif k < 0.91:
+            apply_rule_op(env, "signatures-reassign", rng.choice(["copy", "reversed"]))
+        elif k < 0.96:
+            membrane_duplicate(ctx, env, rng)
+        elif not SILENT[0]:
+            apply_rule_op(env, "silent", rng.choice([True, False, False, 0, 1, "", None]))
     else:
         t = advance(clock, all_models or mm, rng)
         env.ops.append(["advance-to", round(t - clock.base, 3)])
@@ -631,8 +972,9 @@ def gen_pool(rng, envs, future):
 def case_mhist(ctx, n, rng):
     import operon_ai.organelles.membrane as mod
     env = build_membrane(rng, rate_limit=pick_rate(rng))
-    clock = VClock(rng.choice(CLOCK_BASES))
+    clock = VClock(pick_clock_base(rng))
     env.desc["clock_base"] = clock.base
+    env.desc["TZ"] = TZ_STATE[0]
     future = [gen_sigspec(rng, 3) for _ in range(3)]
     pool = gen_pool(rng, [env], future)
     steps = rng.randint(4, 12)
@@ -652,7 +994,7 @@ def case_multi(ctx, n, rng):
     import operon_ai.organelles.membrane as mod
     envs = [build_membrane(rng, rate_limit=pick_rate(rng)) for _ in range(rng.choice([2, 2, 3]))]
     ienvs = [build_innate(rng) for _ in range(rng.choice([1, 2]))]
-    clock = VClock(rng.choice(CLOCK_BASES))
+    clock = VClock(pick_clock_base(rng))
     for j, e in enumerate(envs):
         e.desc.update(instance=j, of=len(envs), clock_base=clock.base)
     for j, e in enumerate(ienvs):
@@ -861,13 +1203,14 @@ class MarkerValidator:
     """a validator the user wrote: rejects content that contains its marker word. It hands back the same two tuple objects
     for every request, and can be told to raise its own exception on one particular call."""
 
-    def __init__(self, marker, boom_at=0):
-        self.marker, self.boom_at, self.calls = marker, boom_at, 0
+    def __init__(self, marker, boom_at=0, exc_seed=0):
+        self.marker, self.boom_at, self.calls, self.exc_seed = marker, boom_at, 0, exc_seed
 
     def validate(self, content):
+        import random
         self.calls += 1
-        if self.calls == self.boom_at:
-            raise CallbackBoom("validator call #%d" % self.calls)
+        if self.calls == self.boom_at or (self.boom_at < 0 and self.calls % -self.boom_at == 1):
+            user_raise(random.Random(self.exc_seed + self.calls), "validator call #%d" % self.calls)
         return _VERDICT_BAD if self.marker in content else _VERDICT_OK
 
 
@@ -887,7 +1230,7 @@ def one_validator(rng, kind):
         return ("length", lo, hi), LengthValidator(min_length=lo, max_length=hi)
     if kind == "marker":
         mk = rng.choice(MARKERS)
-        return ("marker", mk), MarkerValidator(mk, boom_at=rng.choice([0, 0, 0, 2, 3, 5]))
+        return ("marker", mk), MarkerValidator(mk, boom_at=rng.choice([0, 0, 0, 2, 3, 5, -3, -4]), exc_seed=rng.randrange(10 ** 6))
     ac, an = rng.random() < 0.3, rng.random() < 0.3
     return ("charset", ac, an), CharacterSetValidator(allow_control_chars=ac, allow_null=an)
 
@@ -930,34 +1273,38 @@ def build_innate(rng):
         keep = []
     else:
         keep = [p for p in defaults if rng.random() < 0.6]
-    cls = InnateImmunity if keep is defaults else type("SubsetInnate", (InnateImmunity,), {"DEFAULT_PATTERNS": keep})
-    thr = rng.choice([1, 2, 3, 3, 3, 4, 5] * 3 + ODD_THRESHOLDS)
+    base = recording(InnateImmunity)
+    cls = base if keep is defaults else type("SubsetInnate", (base,), {"DEFAULT_PATTERNS": keep})
+    thr = rng.choice([1, 2, 3, 3, 3, 4, 5] * 4 + ODD_THRESHOLDS)
     specs = [gen_patspec(rng) for _ in range(rng.choice([0, 0, 1, 2, 3, 4]))]
     routes = [rng.choice(["ctor", "add"]) for _ in specs]
     cats = list(PAMPCategory)
-    ctor = [TLRPattern(p, rng.choice(cats), describe(rng), is_regex=rx, severity=l) for (p, rx, l), rt in zip(specs, routes) if rt == "ctor"]
+    ctor = [xform_sig(rng, TLRPattern(p, rng.choice(cats), describe(rng), is_regex=rx, severity=sev_for(thr, l)))
+            for (p, rx, l), rt in zip(specs, routes) if rt == "ctor"]
     vlist, vpairs = gen_validators(rng)
-    cb_mode = rng.choice([None] * 10 + ["record", "raise-some", "raise-some", "reenter"])
-    decay = rng.choice([15] * 6 + [0, 0.001, 1, 10 ** 6])
+    cb_mode = rng.choice([None] * 10 + ICB_MODES)
+    late_cb = cb_mode is not None and rng.random() < 0.25
+    decay = rng.choice([15] * 6 + [0, 0.001, 1, 10 ** 6, 0.5, True])
     env = IEnv()
     env.cb_calls = []
-
-    def on_inflammation(response):
-        env.cb_calls.append(response)
-        if cb_mode == "raise-some" and len(env.cb_calls) % 3 == 1:
-            raise CallbackBoom("on_inflammation #%d" % len(env.cb_calls))
-        if cb_mode == "reenter":
-            env.imm.stats(), env.imm.get_inflammation_state()
-
+    env.rng = rng
     handed = list(ctor) if (ctor or rng.random() < 0.5) else None
-    kw = {} if (decay == 15 and rng.random() < 0.5) else {"inflammation_decay_minutes": decay}
-    imm = cls(patterns=handed, validators=vlist, severity_threshold=thr, silent=SILENT[0],
-              on_inflammation=on_inflammation if cb_mode else None, **kw)
+    kw = {"patterns": one_shot(rng, handed) if handed else handed, "validators": vlist, "severity_threshold": thr, "silent": SILENT[0],
+          "on_inflammation": None if late_cb else make_on_inflammation(env, cb_mode), "inflammation_decay_minutes": decay}
+    for k, dflt in (("patterns", None), ("validators", None), ("severity_threshold", 3), ("on_inflammation", None),
+                    ("inflammation_decay_minutes", 15)):
+        if kw[k] is dflt and rng.random() < 0.5:
+            del kw[k]
+    for k in kw:
+        API_CALLS["api:InnateImmunity.__init__(%s=)" % k] += 1
+    imm = cls(**kw)
+    if late_cb:
+        imm.on_inflammation = make_on_inflammation(env, cb_mode)
     if handed:
         handed.clear()
     if not vlist:
         vpairs = [(spec, v) for (spec, _), v in zip(vpairs, imm.validators)]
-    env.imm, env.thr, env.vpairs, env.rng = imm, thr, list(vpairs), rng
+    env.imm, env.thr, env.vpairs = imm, thr, list(vpairs)
     env.active = [pat_key(p) for p in keep] + [pat_key(p) for p in ctor]
     env.removed = [pat_key(p) for p in defaults if p not in keep]
     env.ops = []
@@ -970,9 +1317,38 @@ def build_innate(rng):
     return env
 
 
-ODD_THRESHOLDS = [0, 6, 2.5, 0.3, 100, 3.0]
-ODD_SEVERITIES = [0, -1, 2.5, 0.1 + 0.2, 6, 10, 2 ** 53 + 1, float("inf"), 3.0, -0.0]
-SEVERITIES = [0, 0.1 + 0.2, 1, 2, 2.5, 3, 4, 5, 6, 100]
+ODD_THRESHOLDS = [0, 6, 2.5, 0.3, 100, 3.0, Fraction(5, 2), Fraction(3), Decimal("2.5"), Decimal(3), True]
+ODD_SEVERITIES = [0, -1, 2.5, 0.1 + 0.2, 6, 10, 2 ** 53 + 1, float("inf"), 3.0, -0.0, Fraction(5, 2), Fraction(7, 2), True]
+SEVERITIES = [0, 0.1 + 0.2, 1, 2, 2.5, 3, 4, 5, 6, 100, Fraction(7, 2)]
+ICB_MODES = ["record", "raise-some", "raise-some", "reenter", "falsy"]
+
+
+def num(x):
+    """the harness's own comparisons: a Decimal setting as the exact Fraction (Python refuses Decimal < Fraction)"""
+    return Fraction(x) if isinstance(x, Decimal) else x
+
+
+def sev_for(thr, sev):
+    """the severity as handed to the gate: numerically the same value, in a type the threshold's type can be compared and added
+    with (Decimal against Fraction / float arithmetic is a TypeError of Python's, not of the gate)"""
+    if isinstance(thr, Decimal) or isinstance(sev, Decimal):
+        return float(sev) if isinstance(sev, (Fraction, Decimal)) else sev
+    return sev
+
+
+def make_on_inflammation(env, mode):
+    if mode is None:
+        return None
+    if mode == "falsy":
+        return FalsyCallable(env.cb_calls)
+
+    def on_inflammation(response, *more):
+        env.cb_calls.append(response)
+        if mode == "raise-some" and len(env.cb_calls) % 3 == 1:
+            user_raise(env.rng, "on_inflammation #%d" % len(env.cb_calls))
+        if mode == "reenter":
+            env.imm.stats(), env.imm.get_inflammation_state()
+    return on_inflammation
 
 
 def gen_patspec(rng):
@@ -985,7 +1361,11 @@ def gen_patspec(rng):
 
 def innate_add(env, spec, rng):
     from operon_ai.surveillance.innate import TLRPattern, PAMPCategory
-    env.imm.add_pattern(TLRPattern(spec[0], rng.choice(list(PAMPCategory)), describe(rng), is_regex=spec[1], severity=spec[2]))
+    pat = xform_sig(rng, TLRPattern(spec[0], rng.choice(list(PAMPCategory)), describe(rng), is_regex=spec[1], severity=sev_for(env.thr, spec[2])))
+    if rng.random() < 0.8:
+        env.imm.add_pattern(pat)
+    else:
+        env.imm.add_pattern(pattern=pat)
     env.active.append(spec)
     env.ops.append(["add_pattern", spec])
 
@@ -993,11 +1373,99 @@ def innate_add(env, spec, rng):
 def innate_add_validator(env, rng):
     """add_validator() between two checks; returns an input the new validator has to reject (or None)"""
     spec, v = one_validator(rng, rng.choice(["json", "length", "charset", "marker"]))
-    env.imm.add_validator(v)
+    if rng.random() < 0.8:
+        env.imm.add_validator(v)
+    else:
+        env.imm.add_validator(validator=v)
     env.vpairs.append((spec, v))
     env.desc["validators"].append(list(spec))
     env.ops.append(["add_validator", list(spec)])
     return rejected_example(rng, spec)
+
+
+def innate_setting(ctx, env, rng):
+    """a public setting of the innate gate assigned after construction: the obligations follow the current value"""
+    from datetime import timedelta
+    imm = env.imm
+    k = rng.choice(["threshold", "threshold", "validators-rebound", "validator-removed", "validators-replaced", "patterns-rebound",
+                    "on_inflammation", "decay", "silent"])
+    ctx.count("innate_settings_assigned_mid_session")
+    if k == "threshold":
+        fractions_in_use = any(isinstance(a[2], Fraction) for a in env.active)
+        thr = rng.choice([t for t in [1, 2, 3, 4, 5, 3] + ODD_THRESHOLDS if not (fractions_in_use and isinstance(t, Decimal))])
+        imm.severity_threshold = thr
+        env.thr = thr
+        env.desc["severity_threshold"] = thr
+    elif k == "validators-rebound":
+        imm.validators = list(imm.validators)
+    elif k == "validator-removed" and env.vpairs:
+        i = rng.randrange(len(env.vpairs))
+        j = [n for n, v in enumerate(imm.validators) if v is env.vpairs[i][1]]
+        if not j:
+            return
+        del imm.validators[j[0]]
+        del env.vpairs[i]
+    elif k == "validators-replaced":
+        pairs = [one_validator(rng, kind) for kind in rng.choice([["length"], ["charset", "marker"], ["json"], []])]
+        imm.validators = [v for _, v in pairs]
+        env.vpairs = list(pairs)
+    elif k == "patterns-rebound":
+        imm.patterns = list(imm.patterns)
+    elif k == "on_inflammation":
+        imm.on_inflammation = make_on_inflammation(env, rng.choice([None, None] + ICB_MODES))
+    elif k == "decay":
+        imm.inflammation_decay = rng.choice([timedelta(0), timedelta(microseconds=1), timedelta(days=400), timedelta(minutes=15)])
+    elif k == "silent" and not SILENT[0]:
+        imm.silent = rng.choice([True, False, False, 0, "", None])
+    env.desc["validators"] = [list(s) for s, _ in env.vpairs]
+    env.ops.append(["setting", k, env.thr if k == "threshold" else None])
+
+
+def innate_duplicate(ctx, env, rng):
+    """the gate goes through an object protocol (deepcopy / pickle / copy) and the session continues on the duplicate, which owes
+    the same answers; the original is not used again. A protocol the gate does not support is recorded, not judged."""
+    how = rng.choice(["deepcopy", "deepcopy", "pickle", "pickle", "copy"])
+    try:
+        dup = (copy.deepcopy(env.imm) if how == "deepcopy" else copy.copy(env.imm) if how == "copy"
+               else pickle.loads(pickle.dumps(env.imm, rng.choice([2, pickle.HIGHEST_PROTOCOL]))))
+    except (KeyboardInterrupt, SystemExit):
+        raise
+    except BaseException:  # noqa
+        ctx.count("innate_duplicate_not_supported:" + how)
+        return
+    vs = list(getattr(dup, "validators", []))
+    if len(vs) != len(env.vpairs) or any(type(a) is not type(b[1]) for a, b in zip(vs, env.vpairs)):
+        ctx.count("innate_duplicate_validators_not_aligned")
+        return
+    env.vpairs = [(spec, v) for (spec, _), v in zip(env.vpairs, vs)]
+    env.imm = dup
+    ctx.count("innate_gates_duplicated")
+    ctx.count("innate_gates_duplicated:" + how)
+    env.ops.append(["gate-duplicated", how])
+
+
+def membrane_duplicate(ctx, env, rng):
+    """object protocols on the membrane. A shallow copy is another handle on the same rule set: fresh inputs put through it are
+    judged against the rules in force (only while no rate window is configured: the copy would spend the original's window).
+    Deep copies / pickles are attempted and recorded (the gate holds a lock; not judged)."""
+    how = rng.choice(["copy", "copy", "deepcopy", "pickle"])
+    try:
+        dup = (copy.deepcopy(env.m) if how == "deepcopy" else copy.copy(env.m) if how == "copy" else pickle.loads(pickle.dumps(env.m)))
+    except (KeyboardInterrupt, SystemExit):
+        raise
+    except BaseException:  # noqa
+        ctx.count("membrane_duplicate_not_supported:" + how)
+        return
+    ctx.count("membrane_gates_duplicated:" + how)
+    if how != "copy" or env.mm.rate_limit is not None or env.m.rate_limit is not None:
+        return
+    fork = new_menv(dup, copy.deepcopy(env.mm), rng, dict(env.desc, duplicate=how), env.removed)
+    fork.cb_calls, fork.inactive = env.cb_calls, env.inactive
+    for _ in range(rng.choice([1, 2])):
+        x, _r = make_input(rng, fork.mm.active(), env.removed + env.inactive)
+        if len(x) < 5000:
+            step_filter(ctx, fork, "%s [via copy %d]" % (x, rng.randrange(10 ** 9)), tag="filter-on-shallow-copy")
+            ctx.count("membrane_shallow_copy_decisions")
 
 
 def poke_innate(ctx, env):
@@ -1026,30 +1494,33 @@ def step_check(ctx, env, content, expect_block=None, tag="check"):
         poke_innate(ctx, env)
         env.ops.append(["report-api-read"])
     r = None
-    for attempt in range(4):
+    text = TaggedStr(content) if env.rng.random() < 0.04 else content
+    for attempt in range(7):
         try:
-            r = imm.check(content)
+            r = imm.check(text) if env.rng.random() < 0.9 else imm.check(content=text)
             break
         except (KeyboardInterrupt, SystemExit):
             raise
-        except CallbackBoom:
-            # the user's own exception (on_inflammation callback / user validator) coming back out of check(): it may propagate.
-            # What is owed afterwards: the gate still answers, and answers right - the same input is checked again
-            ctx.count("innate_user_exception_through_check")
-            env.ops.append(["user-exception-propagated"])
         except BaseException as e:  # noqa: totality monitor
-            ctx.count("innate_check_raised")
-            ctx.violation("check-raises:%s" % type(e).__name__, "InnateImmunity.check raised %s: %s" % (type(e).__name__, str(e)[:160]), wit)
-            return None
+            if not is_user_exception(e):
+                ctx.count("innate_check_raised")
+                ctx.violation("check-raises:%s" % type(e).__name__, "InnateImmunity.check raised %s: %s" % (type(e).__name__, str(e)[:160]), wit)
+                return None
+            # the user's own exception (on_inflammation callback / user validator, whatever its type) coming back out of check(): it
+            # may propagate. What is owed afterwards: the gate still answers, and answers right - the same input is checked again
+            ctx.count("innate_user_exception_through_check")
+            ctx.count("user_exception_types_through_check:%s" % type(e).__name__)
+            env.ops.append(["user-exception-propagated", type(e).__name__])
     if r is None:
         ctx.count("innate_check_gave_up_after_user_exceptions")
         return None
     ctx.count("innate_check_calls")
-    if isinstance(env.thr, float) or not 1 <= env.thr <= 5:
+    thr = num(env.thr)
+    if not isinstance(env.thr, int) or isinstance(env.thr, bool) or not 1 <= env.thr <= 5:
         ctx.count("innate_odd_threshold_checks")
     C = M.Content(content)
     must, amb = M.scan(env.active, C)
-    hits = [k[2] for k in must if k[2] >= env.thr]
+    hits = [k[2] for k in must if num(k[2]) >= thr]
     sev = max(hits, default=0)
     real = Counter(pat_key(p) for p in r.matched_patterns)
     rej_real, rej_doc = [], []
@@ -1146,8 +1617,9 @@ def innate_clock(rng, env):
     """virtual time for the escalation state (module-level `datetime` of the innate module); the workload moves it by anything
     from nothing to many days between two checks"""
     import operon_ai.surveillance.innate as imod
-    clock = VClock(rng.choice(CLOCK_BASES[:5]) + 86_400.0)
+    clock = VClock(pick_clock_base(rng, CLOCK_BASES[:5]) if TZ_STATE[0] else rng.choice(CLOCK_BASES[:5]) + 86_400.0)
     env.clock = clock
+    env.desc["TZ"] = TZ_STATE[0]
     with patched(clock, imod):
         yield clock
 
@@ -1176,7 +1648,7 @@ def _case_innate(ctx, n, rng, env):
         else:
             x, _ = make_input(rng, env.active, env.removed)
         r = step_check(ctx, env, x)
-        if r is not None and not r.allowed and r.matched_patterns and max(p.severity for p in r.matched_patterns) >= env.thr:
+        if r is not None and not r.allowed and r.matched_patterns and max(p.severity for p in r.matched_patterns) >= num(env.thr):
             xc = M.case_perturb(x, rng)
             if xc is not None and xc != x:
                 ctx.count("innate_case_perturbations_checked")
@@ -1189,6 +1661,10 @@ def _case_innate(ctx, n, rng, env):
             inst = M.sig_instance(spec, rng)
             if inst:
                 step_check(ctx, env, M.compose(rng, [inst], hostile_p=0.0), tag="check-after-add")
+        if rng.random() < 0.2:
+            innate_setting(ctx, env, rng)
+        if rng.random() < 0.06:
+            innate_duplicate(ctx, env, rng)
         if rng.random() < 0.15:
             bad = innate_add_validator(env, rng)
             ctx.count("innate_validators_added_mid_session")
@@ -1206,7 +1682,7 @@ def innate_edit(env, kind, old, new, rng):
     imm = env.imm
     i, j = last_index(imm.patterns, old, pat_key), last_index(env.active, old, lambda k: k)
     if kind == "replace-pattern":
-        imm.patterns[i] = TLRPattern(new[0], rng.choice(list(PAMPCategory)), "replaced", is_regex=new[1], severity=new[2])
+        imm.patterns[i] = xform_sig(rng, TLRPattern(new[0], rng.choice(list(PAMPCategory)), "replaced", is_regex=new[1], severity=sev_for(env.thr, new[2])))
         env.active[j] = new
         env.ops.append([kind, [old, new]])
     else:
@@ -1220,7 +1696,7 @@ ISWAPS = ["add-only", "replace-pattern", "replace-pattern", "remove-add-pattern"
 
 def iswap_round(ctx, env, rng):
     """the innate twin of mswap_round: check x while it passes, edit the pattern list, check the identical x again"""
-    thr = env.thr
+    thr = num(env.thr)
     kind = rng.choice(ISWAPS)
     base = gen_sigspec(rng, 5)
     S = (base[0], base[1], rng.choice([v for v in SEVERITIES if v >= thr] or [thr]))
@@ -1291,9 +1767,102 @@ def case_iswap(ctx, n, rng):
     with innate_clock(rng, env):
         for _ in range(rng.choice([1, 2, 2, 3, 4])):
             innate_tick(env, rng)
+            if rng.random() < 0.15:
+                innate_setting(ctx, env, rng)
+            if rng.random() < 0.05:
+                innate_duplicate(ctx, env, rng)
             iswap_round(ctx, env, rng)
     if n % 500 == 24:
         ctx.sample({"kind": "innate-rule-change-session", "config": env.desc})
+
+
+# ------------------------------------------------------------------ short-lived objects (address reuse)
+def case_reuse(ctx, n, rng):
+    """many short-lived inputs, envelopes and signature objects created and dropped in a loop, garbage collected in between:
+    a fresh object regularly gets the address of a dead one, so anything remembered per id() instead of per content answers
+    for the wrong object. Equal-length inputs alternate between one that holds a signature and one that does not."""
+    from operon_ai.core.types import Signal
+    from operon_ai.organelles.membrane import Membrane, ThreatLevel, ThreatSignature
+    from operon_ai.surveillance.innate import InnateImmunity, PAMPCategory, TLRPattern
+    m = recording(Membrane)(threshold=ThreatLevel.DANGEROUS, silent=True)
+    imm = recording(InnateImmunity)(silent=True)
+    desc = {"kind": "short-lived-objects"}
+    ctx.count("histories")
+    pairs = [("jailbreak", "jailbrake"), ("DAN mode", "DAN made"), ("developer mode", "developer code")]
+    seen_ids, reused = set(), 0
+
+    def call(fn, arg, what, wit):
+        try:
+            return fn(arg)
+        except (KeyboardInterrupt, SystemExit):
+            raise
+        except BaseException as e:  # noqa: totality monitor
+            ctx.violation("%s-raises:%s" % (what, type(e).__name__), "%s raised %s: %s" % (what, type(e).__name__, str(e)[:160]), wit)
+            return None
+
+    for i in range(rng.choice([40, 60, 80])):
+        bad_word, ok_word = rng.choice(pairs)
+        bad = rng.random() < 0.5
+        x = "%s %s #%07d" % (M.BENIGN[i % 20], bad_word if bad else ok_word, rng.randrange(10 ** 7))     # a fresh str object every time
+        if id(x) in seen_ids:
+            reused += 1
+        seen_ids.add(id(x))
+        r = call(m.filter, Signal(content=x), "filter", dict(desc, content=x))
+        ctx.count("membrane_filter_calls")
+        ctx.count("short_lived_inputs_judged")
+        if r is not None and r.allowed:
+            ctx.count("membrane_allowed")
+            if bad:
+                ctx.violation("membrane-allowed-despite-signature", "allowed although the built-in signature %r matches (one of many short-lived "
+                              "inputs of equal length on one gate)" % bad_word, dict(desc, content=x, request=i))
+        r = call(imm.check, x, "check", dict(desc, content=x))
+        ctx.count("innate_check_calls")
+        ctx.count("short_lived_inputs_judged")
+        if r is not None and r.allowed:
+            ctx.count("innate_allowed")
+            if bad:
+                ctx.violation("innate-allowed-despite-pattern", "allowed although a default pattern matches %r (one of many short-lived inputs "
+                              "of equal length on one gate)" % bad_word, dict(desc, content=x, request=i))
+        del x, r
+        if i % 6 == 5:
+            gc.collect(0)                  # (the young generation: cheap; one full collection follows the loop)
+    # short-lived signature objects: a rule is registered, used, withdrawn; the next one (another text, same size) takes its place
+    gc.collect()
+    m.add_signature(ThreatSignature("zq placeholder", ThreatLevel.CRITICAL, "slot"))
+    imm.add_pattern(TLRPattern("zq placeholder", PAMPCategory.JAILBREAK_PATTERN, "slot", severity=5))
+    prev = None
+    for j in range(rng.choice([12, 20])):
+        p_ = "zq%s%04d" % (rng.choice("abcdef"), rng.randrange(10 ** 4))
+        if p_ == prev:
+            continue
+        route = rng.choice(["learn", "slot", "import", "regex-slot"])
+        if route == "learn":
+            m.learn_threat(p_, ThreatLevel.CRITICAL, "short-lived")
+        elif route == "import":
+            m.import_antibodies([ThreatSignature(p_, ThreatLevel.CRITICAL, "short-lived")])
+        else:
+            m.signatures[-1] = ThreatSignature(p_, ThreatLevel.CRITICAL, "short-lived", is_regex=(route == "regex-slot"))
+        imm.patterns[-1] = TLRPattern(p_, PAMPCategory.JAILBREAK_PATTERN, "short-lived", is_regex=(route == "regex-slot"), severity=5)
+        x = "note %s please" % p_.upper()
+        wit = dict(desc, content=x, signature=p_, route=route, round=j)
+        r = call(m.filter, Signal(content=x), "filter", wit)
+        ctx.count("membrane_filter_calls")
+        ctx.count("short_lived_signatures_judged")
+        if r is not None and r.allowed:
+            ctx.violation("membrane-allowed-despite-signature", "allowed although the signature registered last (a short-lived object in a "
+                          "slot many signatures passed through) matches", wit)
+        r = call(imm.check, x, "check", wit)
+        ctx.count("innate_check_calls")
+        if r is not None and r.allowed:
+            ctx.violation("innate-allowed-despite-pattern", "allowed although the pattern registered last (a short-lived object in a slot "
+                          "many patterns passed through) matches", wit)
+        if route in ("learn", "import"):
+            m.forget_threat(p_)
+        prev = p_
+        del r
+        gc.collect(0)
+    ctx.count("short_lived_input_addresses_reused", reused)
+    ctx.nontrivial(("short-lived", reused > 0))
 
 
 # ------------------------------------------------------------------ long histories on one gate
@@ -1452,6 +2021,7 @@ def case_long_rate(ctx, n, rng):
     m, keys = small_membrane(rng, threshold=ThreatLevel(2), rate_limit=limit)
     env = new_menv(m, M.MembraneModel(keys, 2, True, limit), rng,
                    {"gate": "membrane", "kind": "long-rate", "rate_limit": limit, "requests": size})
+    guard_against_leaked_locks(env)
     clock = VClock(rng.choice(CLOCK_BASES))
     watch = AuditWatch(ctx, env)
     admitted, passed = deque(), deque()
@@ -1471,7 +2041,8 @@ def case_long_rate(ctx, n, rng):
             except (KeyboardInterrupt, SystemExit):
                 raise
             except BaseException as e:  # noqa: totality monitor
-                ctx.violation("filter-raises:%s" % type(e).__name__, "Membrane.filter raised %s" % type(e).__name__, dict(env.desc, content=x, request=i))
+                ctx.violation("membrane-lock-left-held" if type(e).__name__ == "WouldHang" else "filter-raises:%s" % type(e).__name__,
+                              "Membrane.filter raised %s" % type(e).__name__, dict(env.desc, content=x, request=i))
                 return
             watch.saw(res)
             ctx.count("membrane_filter_calls")
@@ -1617,10 +2188,10 @@ GIANT_AT = 12                             # (thorough only) the one session with
 def case_sweep(ctx, gate, kind):
     if not gate.endswith("-verbose"):
         return _case_sweep(ctx, gate, kind, True)
-    with contextlib.redirect_stdout(io.StringIO()) as out:
+    with strict_console() as out:
         _case_sweep(ctx, gate, kind, False)
     ctx.count("cases_with_console_output_enabled")
-    if out.getvalue():
+    if out.n:
         ctx.count("cases_that_printed")
 
 
@@ -1720,6 +2291,43 @@ def _wrap_locks(obj):
     return out
 
 
+def _follow_lock_replacements(obj, wrapped, replaced):
+    """a gate that assigns a fresh lock object to one of its lock attributes during a call (found by shape, whatever they are called)
+    gets the new lock wrapped for the scheduler as well: the schedule goes on and the outcome is judged, instead of a real lock
+    blocking a managed thread behind the scheduler's back"""
+    from rv.locks import lock_like
+    for o in _parts(obj):
+        d = getattr(o, "__dict__", None)
+        if not isinstance(d, dict):
+            continue
+        names = [k for k, v in d.items() if getattr(v, "_rv_wrapper", False)]
+        if not names:
+            continue
+        store = {k: d[k] for k in names}
+
+        def mk(k, store=store, o=o):
+            def get(self):
+                return store[k]
+
+            def set_(self, v):
+                if lock_like(v) and not getattr(v, "_rv_wrapper", False):
+                    v = sched.SchedLock(v, "%s.%s#replaced" % (type(o).__name__, k))
+                    v._rv_wrapper = True
+                    wrapped.append(v)
+                    replaced.append(k)
+                store[k] = v
+            return property(get, set_)
+
+        try:
+            sub = type(type(o).__name__, (type(o),), {k: mk(k) for k in names})
+            for k in names:
+                del d[k]
+            o.__class__ = sub
+        except Exception:  # noqa (a class that cannot be extended this way: the watchdog will say so if it matters)
+            for k in names:
+                d.setdefault(k, store[k])
+
+
 def _uninstrument():
     mon = sys.monitoring
     for code in list(sched._installed):
@@ -1747,6 +2355,8 @@ def case_threads(ctx, n, rng):
         m = cls(rate_limit=limit, threshold=ThreatLevel.DANGEROUS, silent=not verbose)
         wrapped = _wrap_locks(m)
         ctx.maxc("thread_locks_wrapped_per_gate", len(wrapped))
+        replaced = []
+        _follow_lock_replacements(m, wrapped, replaced)
 
         def mk(t):
             def body():
@@ -1758,6 +2368,8 @@ def case_threads(ctx, n, rng):
         ctx.count("thread_schedules")
         ctx.count("thread_yield_points", sc.step)
         ctx.count("thread_lock_acquisitions", sum(w.acquisitions for w in wrapped))
+        if replaced:
+            ctx.count("thread_schedules_where_the_gate_replaced_a_lock")
         if sc.switch_while_other_inside:
             ctx.count("thread_schedules_with_switch_inside")
             ctx.nontrivial(("threads", sc.trace_hash()))
@@ -1786,7 +2398,7 @@ def case_threads(ctx, n, rng):
         return sc
 
     try:
-        with patched(clock, mod), contextlib.redirect_stdout(io.StringIO()):
+        with patched(clock, mod), strict_console():
             base = run(sched.PreemptionPolicy({}), "pb(0)")
             N = max(base.step, 1)
             thorough = ctx.tier == "thorough"
@@ -1811,6 +2423,43 @@ def case_threads(ctx, n, rng):
         ctx.sample(dict(desc, baseline_yield_points=N))
 
 
+# ------------------------------------------------------------------ the refusal obligations in an interpreter started with -O
+def judge_probe(ctx, entries, label):
+    for e in entries:
+        ctx.count("refusal_probe_obligations_checked:" + label)
+        wit = dict(e, interpreter=label)
+        if e["raised"]:
+            ctx.violation("%s-raises%s" % ("filter" if e["gate"] == "membrane" else "check", ":python-O" if label == "python-O" else ""),
+                          "%s gate raised %s on probe input %s" % (e["gate"], e["raised"], e["id"]), wit)
+            continue
+        if e["must_block"] and e["allowed"]:
+            ctx.violation("%s-refusal-owed-but-allowed%s" % (e["gate"], ":python-O" if label == "python-O" else ""),
+                          "probe input %r is allowed although the statement requires a refusal (%s interpreter)" % (e["id"], label), wit)
+        if e.get("audit_growth") not in (None, 1):
+            ctx.violation("membrane-audit-missing%s" % (":python-O" if label == "python-O" else ""),
+                          "audit log grew by %r entries for one filter() call (%s interpreter)" % (e.get("audit_growth"), label), wit)
+
+
+def extra_parent(ctx):
+    """once per run, in the parent while the shards work: the refusal probe (rv/c10_child.py) in this interpreter as a control and
+    in a child interpreter started with -O, where a guard written as an `assert` / under `if __debug__:` no longer exists"""
+    import subprocess
+    from rv import c10_child
+    judge_probe(ctx, c10_child.scenario(), "ordinary")
+    try:
+        p = subprocess.run([sys.executable, "-O", "-B", c10_child.__file__, json.dumps([q for q in sys.path if q])],
+                           capture_output=True, text=True, timeout=300, cwd=core.VERIF)
+        data = json.loads(p.stdout) if p.returncode == 0 else None
+    except (subprocess.TimeoutExpired, OSError, ValueError) as e:
+        ctx.inconclusive("the -O child interpreter of the refusal probe did not deliver a result (%s)" % type(e).__name__)
+        return
+    if not data or not data.get("optimised"):
+        ctx.inconclusive("the -O child interpreter of the refusal probe failed to start or did not run optimised: rc=%s %s" % (
+            p.returncode, (p.stderr or "")[-300:]))
+        return
+    judge_probe(ctx, data["entries"], "python-O")
+
+
 # ------------------------------------------------------------------ dispatch
 def run_case(ctx, n):
     if n < len(SWEEP):
@@ -1825,17 +2474,27 @@ def run_case(ctx, n):
     k = i % 27                            # co-prime to both shard counts: every shard sees every kind
     fn = (case_minput if k < 8 else case_innate if k < 14 else case_mhist if k < 18 else case_mrelax if k < 20
           else case_mswap if k < 24 else case_iswap if k < 25 else case_multi)
-    if i % 9 != 5:                        # one case in nine runs the gates with console output on
-        return fn(ctx, n, rng)
-    SILENT[0] = False
+    if i % 65 == 33:                      # (65 is co-prime to 27 and to both shard counts)
+        fn = case_reuse
     try:
-        with contextlib.redirect_stdout(io.StringIO()) as out:
+        with contextlib.ExitStack() as stack:
+            if i % 7 == 3:                # one case in seven runs in a process time zone far from UTC, often across a DST step
+                TZ_STATE[0] = rng.choice(TZS)
+                stack.enter_context(far_timezone(TZ_STATE[0]))
+                ctx.count("cases_in_a_far_time_zone")
+            if i % 9 != 5:                # one case in nine runs the gates with console output on, into a strict UTF-8 text stream
+                return fn(ctx, n, rng)
+            SILENT[0] = False
+            out = stack.enter_context(strict_console())
             fn(ctx, n, rng)
-        ctx.count("cases_with_console_output_enabled")
-        if out.getvalue():
-            ctx.count("cases_that_printed")
+            ctx.count("cases_with_console_output_enabled")
+            sys.stdout.flush()
+            if out.n:
+                ctx.count("cases_that_printed")
     finally:
         SILENT[0] = True
+        TZ_STATE[0] = None
+        flush_api_calls(ctx)
 
 
 if __name__ == "__main__":
